@@ -94,4 +94,332 @@ theorem central (al : Array ℝ) (dim2 : Nat) (hal : ∀ a ∈ al.toList, 0 < a)
     nlinarith
   · simp
 
+/-! ### folds as sums / products -/
+
+theorem foldl_add_sum {β : Type} (f : β → ℝ) (l : List β) (c : ℝ) :
+    l.foldl (fun acc p => acc + f p) c = c + (l.map f).sum := by
+  induction l generalizing c with
+  | nil => simp
+  | cons p t ih => simp only [List.foldl_cons, List.map_cons, List.sum_cons, ih]; ring
+
+theorem foldl_sub_sum {β : Type} (f : β → ℝ) (l : List β) (c : ℝ) :
+    l.foldl (fun acc p => acc - f p) c = c - (l.map f).sum := by
+  induction l generalizing c with
+  | nil => simp
+  | cons p t ih => simp only [List.foldl_cons, List.map_cons, List.sum_cons, ih]; ring
+
+theorem foldl_mul_prod {β : Type} (f : β → ℝ) (l : List β) (c : ℝ) :
+    l.foldl (fun acc p => acc * f p) c = c * (l.map f).prod := by
+  induction l generalizing c with
+  | nil => simp
+  | cons p t ih => simp only [List.foldl_cons, List.map_cons, List.prod_cons, ih]; ring
+
+/-- `Σ wⱼ²` -/
+def sumSq (w : List ℝ) : ℝ := (w.map (fun x => x * x)).sum
+
+theorem sumsq_eq (w : List ℝ) : Vec.sumsq w.toArray = sumSq w := by
+  unfold Vec.sumsq Vec.dot sumSq
+  rw [foldl_add_sum (fun p : ℝ × ℝ => p.1 * p.2)]
+  simp only [zero_add]
+  congr 1
+  induction w with
+  | nil => simp
+  | cons a t ih => simp [ih]
+
+/-- `Σ 2αᵢ log(uᵢ/αᵢ)` -/
+noncomputable def logPhi (al u : List ℝ) : ℝ := ((al.zip u).map (fun p => 2 * p.1 * Real.log (p.2 / p.1))).sum
+
+/-- `Π (uᵢ/αᵢ)^{2αᵢ}` -/
+noncomputable def prodPhi (al u : List ℝ) : ℝ := ((al.zip u).map (fun p => (p.2 / p.1) ^ (2 * p.1))).prod
+
+/-- `Σ (1-αᵢ) log uᵢ` -/
+noncomputable def logTail (al u : List ℝ) : ℝ := ((u.zip al).map (fun p => Real.log p.1 * (1 - p.2))).sum
+
+/-- all exponents and all `u`-coordinates positive -/
+def AllPos (l : List ℝ) : Prop := ∀ x ∈ l, 0 < x
+
+theorem prodPhi_eq_exp (al u : List ℝ) (ha : AllPos al) (hu : AllPos u) :
+    prodPhi al u = Real.exp (logPhi al u) := by
+  unfold prodPhi logPhi
+  induction al generalizing u with
+  | nil => simp
+  | cons a t ih =>
+    cases u with
+    | nil => simp
+    | cons x r =>
+      simp only [List.zip_cons_cons, List.map_cons, List.prod_cons, List.sum_cons, Real.exp_add]
+      rw [ih r (fun y hy => ha y (by simp [hy])) (fun y hy => hu y (by simp [hy]))]
+      have hp : 0 < x / a := div_pos (hu x (by simp)) (ha a (by simp))
+      rw [Real.rpow_def_of_pos hp]
+      congr 2
+      ring
+
+theorem logPhiDual_eq (al u : List ℝ) (ha : AllPos al) (hu : AllPos u) :
+    logPhiDual al.toArray u.toArray = logPhi al u := by
+  unfold logPhiDual logPhi
+  rw [foldl_add_sum (fun p : ℝ × ℝ => 2 * p.1 * logsafe (p.2 / p.1)), zero_add]
+  congr 1
+  apply List.map_congr_left
+  intro p hp
+  have h1 := ha p.1 (List.of_mem_zip hp).1
+  have h2 := hu p.2 (List.of_mem_zip hp).2
+  rw [logsafe_of_pos (div_pos h2 h1)]
+
+theorem phiDual_eq (al u w : List ℝ) (hlen : al.length = u.length) :
+    phiDual al.toArray (u ++ w).toArray = prodPhi al u := by
+  unfold phiDual prodPhi
+  rw [foldl_mul_prod (fun p : ℝ × ℝ => powf (p.2 / p.1) (2 * p.1)), one_mul]
+  simp only [real_powf_eq]
+  congr 2
+  have : al.zip (u ++ w) = al.zip u := by
+    have := List.zip_append (l₁ := al) (r₁ := []) (l₂ := u) (r₂ := w) hlen
+    simpa using this
+  exact this
+
+/-- `Σ 2αᵢ logsafe(uᵢ/αᵢ)` exactly as the model evaluates it -/
+noncomputable def logPhiS (al u : List ℝ) : ℝ := ((al.zip u).map (fun p => 2 * p.1 * logsafe (p.2 / p.1))).sum
+
+/-- `Σ logsafe(uᵢ)(1-αᵢ)` exactly as the model evaluates it -/
+noncomputable def logTailS (al u : List ℝ) : ℝ := ((u.zip al).map (fun p => logsafe p.1 * (1 - p.2))).sum
+
+/-- value of the model's `barrier_dual` at the point `(u, w)` -/
+noncomputable def barrierVal (al u w : List ℝ) : ℝ :=
+  -(logsafe (Real.exp (logPhiS al u) - sumSq w)) - logTailS al u
+
+theorem barrierDual_eq (al u w : List ℝ) (hlen : al.length = u.length) :
+    barrierDual al.toArray (u ++ w).toArray = .ok (barrierVal al u w) := by
+  unfold barrierDual
+  have hs : split (u ++ w).toArray al.toArray.size = .ok (u.toArray, w.toArray) := by
+    have : al.toArray.size = u.length := by simpa using hlen
+    rw [this]; exact split_append u w
+  rw [hs]
+  simp only [bind, Except.bind, pure, Except.pure]
+  congr 1
+  unfold barrierVal logPhiS logTailS logPhiDual
+  rw [foldl_sub_sum (fun p : ℝ × ℝ => logsafe p.1 * (1 - p.2)),
+    foldl_add_sum (fun p : ℝ × ℝ => 2 * p.1 * logsafe (p.2 / p.1)), zero_add, sumsq_eq]
+  rfl
+
+theorem logPhiS_eq (al u : List ℝ) (ha : AllPos al) (hu : AllPos u) : logPhiS al u = logPhi al u := by
+  unfold logPhiS logPhi
+  congr 1
+  apply List.map_congr_left
+  intro p hp
+  rw [logsafe_of_pos (div_pos (hu p.2 (List.of_mem_zip hp).2) (ha p.1 (List.of_mem_zip hp).1))]
+
+/-! ### zipper decompositions -/
+
+theorem logPhiS_zipper (a1 a2 u1 u2 : List ℝ) (a t : ℝ) (h : a1.length = u1.length) :
+    logPhiS (a1 ++ a :: a2) (u1 ++ t :: u2) = logPhiS a1 u1 + 2 * a * logsafe (t / a) + logPhiS a2 u2 := by
+  unfold logPhiS
+  rw [List.zip_append h]
+  simp only [List.zip_cons_cons, List.map_append, List.map_cons, List.sum_append, List.sum_cons]
+  ring
+
+theorem logTailS_zipper (a1 a2 u1 u2 : List ℝ) (a t : ℝ) (h : a1.length = u1.length) :
+    logTailS (a1 ++ a :: a2) (u1 ++ t :: u2) = logTailS a1 u1 + logsafe t * (1 - a) + logTailS a2 u2 := by
+  unfold logTailS
+  rw [List.zip_append h.symm]
+  simp only [List.zip_cons_cons, List.map_append, List.map_cons, List.sum_append, List.sum_cons]
+  ring
+
+theorem sumSq_zipper (w1 w2 : List ℝ) (t : ℝ) : sumSq (w1 ++ t :: w2) = sumSq w1 + t * t + sumSq w2 := by
+  unfold sumSq
+  simp only [List.map_append, List.map_cons, List.sum_append, List.sum_cons]
+  ring
+
+/-! ### partial derivatives of the barrier -/
+
+/-- along a `u`-coordinate -/
+theorem barrier_dU (a1 a2 u1 u2 w : List ℝ) (a t : ℝ) (h : a1.length = u1.length) (ha : 0 < a) (ht : 0 < t)
+    (hζ : 0 < Real.exp (logPhiS (a1 ++ a :: a2) (u1 ++ t :: u2)) - sumSq w) :
+    HasDerivAt (fun x => barrierVal (a1 ++ a :: a2) (u1 ++ x :: u2) w)
+      ((-(2 * a / t)) * Real.exp (logPhiS (a1 ++ a :: a2) (u1 ++ t :: u2))
+          / (Real.exp (logPhiS (a1 ++ a :: a2) (u1 ++ t :: u2)) - sumSq w) - (1 - a) / t) t := by
+  have e : (fun x => barrierVal (a1 ++ a :: a2) (u1 ++ x :: u2) w) = fun x =>
+      -(logsafe (Real.exp (logPhiS a1 u1 + 2 * a * logsafe (x / a) + logPhiS a2 u2) - sumSq w))
+        - (logTailS a1 u1 + logsafe x * (1 - a) + logTailS a2 u2) := by
+    funext x
+    unfold barrierVal
+    rw [logPhiS_zipper _ _ _ _ _ _ h, logTailS_zipper _ _ _ _ _ _ h]
+  rw [e]
+  rw [logPhiS_zipper _ _ _ _ _ _ h] at hζ ⊢
+  have hl : HasDerivAt (fun x : ℝ => logsafe (x / a)) (1 / t) t := by
+    have h1 := ((hasDerivAt_id t).div_const a).logsafe (div_pos ht ha)
+    refine h1.congr_deriv ?_
+    simp only [id_eq]
+    field_simp
+  have hS : HasDerivAt (fun x : ℝ => logPhiS a1 u1 + 2 * a * logsafe (x / a) + logPhiS a2 u2) (2 * a / t) t := by
+    have := ((hl.const_mul (2 * a)).const_add (logPhiS a1 u1)).add_const (logPhiS a2 u2)
+    refine this.congr_deriv ?_
+    ring
+  have hE := (hS.exp).sub_const (sumSq w)
+  have hT : HasDerivAt (fun x : ℝ => logTailS a1 u1 + logsafe x * (1 - a) + logTailS a2 u2) ((1 - a) / t) t := by
+    have := ((((hasDerivAt_id t).logsafe ht).mul_const (1 - a)).const_add (logTailS a1 u1)).add_const (logTailS a2 u2)
+    refine this.congr_deriv ?_
+    simp only [id_eq]; ring
+  have hd := ((hE.logsafe hζ).neg).sub hT
+  refine hd.congr_deriv ?_
+  have : Real.exp (logPhiS a1 u1 + 2 * a * logsafe (t / a) + logPhiS a2 u2) - sumSq w ≠ 0 := ne_of_gt hζ
+  have : t ≠ 0 := ne_of_gt ht
+  field_simp
+
+/-- along a `w`-coordinate -/
+theorem barrier_dW (al u w1 w2 : List ℝ) (t : ℝ)
+    (hζ : 0 < Real.exp (logPhiS al u) - sumSq (w1 ++ t :: w2)) :
+    HasDerivAt (fun x => barrierVal al u (w1 ++ x :: w2))
+      (2 / (Real.exp (logPhiS al u) - sumSq (w1 ++ t :: w2)) * t) t := by
+  have e : (fun x => barrierVal al u (w1 ++ x :: w2)) = fun x =>
+      -(logsafe (Real.exp (logPhiS al u) - (sumSq w1 + x * x + sumSq w2))) - logTailS al u := by
+    funext x
+    unfold barrierVal
+    rw [sumSq_zipper]
+  rw [e]
+  rw [sumSq_zipper] at hζ ⊢
+  have hW : HasDerivAt (fun x : ℝ => Real.exp (logPhiS al u) - (sumSq w1 + x * x + sumSq w2)) (-(2 * t)) t := by
+    have := (((((hasDerivAt_id t).mul (hasDerivAt_id t)).const_add (sumSq w1)).add_const (sumSq w2))).const_sub
+      (Real.exp (logPhiS al u))
+    refine this.congr_deriv ?_
+    simp only [id_eq]; ring
+  have hd := ((hW.logsafe hζ).neg).sub_const (logTailS al u)
+  refine hd.congr_deriv ?_
+  have : Real.exp (logPhiS al u) - (sumSq w1 + t * t + sumSq w2) ≠ 0 := ne_of_gt hζ
+  field_simp
+
+/-- stored gradient entry of a `u`-coordinate -/
+noncomputable def gradU (φ ζ a t : ℝ) : ℝ := (-(2 * a / t)) * φ / ζ - (1 - a) / t
+/-- stored gradient entry of a `w`-coordinate -/
+noncomputable def gradW (ζ t : ℝ) : ℝ := (2 / ζ) * t
+
+theorem split_ok (al u w : List ℝ) (hlen : al.length = u.length) :
+    split (u ++ w).toArray al.toArray.size = .ok (u.toArray, w.toArray) := by
+  have : al.toArray.size = u.length := by simpa using hlen
+  rw [this]; exact split_append u w
+
+theorem updateDualGradH_grad (al u w : List ℝ) (hlen : al.length = u.length)
+    (hζ : 0 < prodPhi al u - sumSq w) :
+    ∃ D, updateDualGradH al.toArray (u ++ w).toArray = .ok D ∧
+      D.grad.toList = (al.zip u).map (fun p => gradU (prodPhi al u) (prodPhi al u - sumSq w) p.1 p.2)
+        ++ w.map (gradW (prodPhi al u - sumSq w)) := by
+  unfold updateDualGradH
+  rw [split_ok al u w hlen]
+  simp only [bind, Except.bind, pure, Except.pure]
+  rw [phiDual_eq al u w hlen, sumsq_eq]
+  simp only [hζ, decide_true, Bool.not_true, Bool.false_eq_true, if_false]
+  exact ⟨_, rfl, rfl⟩
+
+theorem all_pos_iff (u : List ℝ) : (u.toArray.toList.all (fun x => decide (0 < x))) = true ↔ AllPos u := by
+  simp [AllPos]
+
+theorem isDualFeasible_iff (al u w : List ℝ) (hlen : al.length = u.length) (ha : AllPos al) :
+    isDualFeasible al.toArray (u ++ w).toArray = .ok true ↔ AllPos u ∧ sumSq w < prodPhi al u := by
+  unfold isDualFeasible
+  rw [split_ok al u w hlen]
+  simp only [bind, Except.bind, pure, Except.pure]
+  by_cases hu : AllPos u
+  · rw [if_pos ((all_pos_iff u).mpr hu), logPhiDual_eq al u ha hu, real_exp_eq, ← prodPhi_eq_exp al u ha hu, sumsq_eq]
+    simp only [hu, true_and, sub_pos]
+    by_cases h : sumSq w < prodPhi al u <;> simp [h]
+  · rw [if_neg (fun h => hu ((all_pos_iff u).mp h))]
+    simp [hu]
+
+/-- `Π uᵢ^{2αᵢ}` -/
+noncomputable def prodPhiP (al u : List ℝ) : ℝ := ((al.zip u).map (fun p => p.2 ^ (2 * p.1))).prod
+
+theorem prodPhiP_eq_exp (al u : List ℝ) (hu : AllPos u) :
+    prodPhiP al u = Real.exp ((al.zip u).map (fun p => 2 * p.1 * Real.log p.2)).sum := by
+  unfold prodPhiP
+  induction al generalizing u with
+  | nil => simp
+  | cons a t ih =>
+    cases u with
+    | nil => simp
+    | cons x r =>
+      simp only [List.zip_cons_cons, List.map_cons, List.prod_cons, List.sum_cons, Real.exp_add]
+      rw [ih r (fun y hy => hu y (by simp [hy]))]
+      rw [Real.rpow_def_of_pos (hu x (by simp))]
+      congr 2
+      ring
+
+theorem isPrimalFeasible_iff (al u w : List ℝ) (hlen : al.length = u.length) :
+    isPrimalFeasible al.toArray (u ++ w).toArray = .ok true ↔ AllPos u ∧ sumSq w < prodPhiP al u := by
+  unfold isPrimalFeasible
+  rw [split_ok al u w hlen]
+  simp only [bind, Except.bind, pure, Except.pure]
+  by_cases hu : AllPos u
+  · have e : logPhiPrimal al.toArray u.toArray = ((al.zip u).map (fun p => 2 * p.1 * Real.log p.2)).sum := by
+      unfold logPhiPrimal
+      rw [foldl_add_sum (fun p : ℝ × ℝ => 2 * p.1 * logsafe p.2), zero_add]
+      congr 1
+      apply List.map_congr_left
+      intro p hp
+      rw [logsafe_of_pos (hu p.2 (List.of_mem_zip hp).2)]
+    rw [if_pos ((all_pos_iff u).mpr hu), e, real_exp_eq, ← prodPhiP_eq_exp al u hu, sumsq_eq]
+    simp only [hu, true_and, sub_pos]
+    by_cases h : sumSq w < prodPhiP al u <;> simp [h]
+  · rw [if_neg (fun h => hu ((all_pos_iff u).mp h))]
+    simp [hu]
+
+/-! ### log-homogeneity -/
+
+theorem sum_gradU (φ ζ : ℝ) (al u : List ℝ) (hlen : al.length = u.length) (hu : AllPos u) :
+    ((al.zip u).map (fun p => gradU φ ζ p.1 p.2 * p.2)).sum = -(2 * φ / ζ) * al.sum - al.length + al.sum := by
+  induction al generalizing u with
+  | nil => simp
+  | cons a t ih =>
+    cases u with
+    | nil => simp at hlen
+    | cons x r =>
+      simp only [List.zip_cons_cons, List.map_cons, List.sum_cons, List.length_cons]
+      rw [ih r (by simpa using hlen) (fun y hy => hu y (by simp [hy]))]
+      have hx : x ≠ 0 := ne_of_gt (hu x (by simp))
+      unfold gradU
+      push_cast
+      field_simp
+      ring
+
+theorem sum_gradW (ζ : ℝ) (w : List ℝ) : (w.map (fun t => gradW ζ t * t)).sum = (2 / ζ) * sumSq w := by
+  unfold sumSq gradW
+  induction w with
+  | nil => simp
+  | cons a t ih => simp only [List.map_cons, List.sum_cons, ih]; ring
+
+theorem dot_eq_sum (x y : List ℝ) : Vec.dot x.toArray y.toArray = ((x.zip y).map (fun p => p.1 * p.2)).sum := by
+  unfold Vec.dot
+  rw [foldl_add_sum (fun p : ℝ × ℝ => p.1 * p.2), zero_add]
+
+theorem sum_zip_map_self (g : ℝ → ℝ) (w : List ℝ) :
+    (((w.map g).zip w).map (fun p : ℝ × ℝ => p.1 * p.2)).sum = (w.map (fun t => g t * t)).sum := by
+  induction w with
+  | nil => simp
+  | cons a t ih => simp only [List.map_cons, List.zip_cons_cons, List.sum_cons, ih]
+
+theorem sum_zip_map_zip (G : ℝ × ℝ → ℝ) (al u : List ℝ) (hlen : al.length = u.length) :
+    ((((al.zip u).map G).zip u).map (fun p : ℝ × ℝ => p.1 * p.2)).sum
+      = ((al.zip u).map (fun p => G p * p.2)).sum := by
+  induction al generalizing u with
+  | nil => simp
+  | cons a t ih =>
+    cases u with
+    | nil => simp
+    | cons x r =>
+      simp only [List.zip_cons_cons, List.map_cons, List.sum_cons]
+      rw [ih r (by simpa using hlen)]
+
+/-- `⟨grad, z⟩ = -(dim1 + 1)` for the stored gradient at an interior point, exponents summing to 1 -/
+theorem log_homogeneity (al u w : List ℝ) (hlen : al.length = u.length) (hu : AllPos u)
+    (hsum : al.sum = 1) (hζ : 0 < prodPhi al u - sumSq w) :
+    Vec.dot ((al.zip u).map (fun p => gradU (prodPhi al u) (prodPhi al u - sumSq w) p.1 p.2)
+        ++ w.map (gradW (prodPhi al u - sumSq w))).toArray (u ++ w).toArray = -((al.length : ℝ) + 1) := by
+  rw [dot_eq_sum]
+  have hl : ((al.zip u).map (fun p => gradU (prodPhi al u) (prodPhi al u - sumSq w) p.1 p.2)).length = u.length := by
+    simp [hlen]
+  rw [List.zip_append hl]
+  simp only [List.map_append, List.sum_append]
+  rw [sum_zip_map_zip (fun p => gradU (prodPhi al u) (prodPhi al u - sumSq w) p.1 p.2) al u hlen,
+    sum_zip_map_self, sum_gradU _ _ al u hlen hu, sum_gradW, hsum]
+  have : prodPhi al u - sumSq w ≠ 0 := ne_of_gt hζ
+  field_simp
+  ring
+
 end Clarabel.GenPow
